@@ -855,6 +855,35 @@ func c14Cycles() []c14Scenario {
 		{"augment-missing-action-output", hdr + `container c { action a { input { leaf i { type string; } } } } augment "/c/a/output" { leaf x { type string; } } }`, nil},
 		{"deviation-missing-action-input", hdr + `container c { action a { output { leaf o { type string; } } } } deviation "/c/a/input/i" { deviate not-supported; } }`, nil},
 		{"when-must-on-missing-halves", hdr + `rpc r { input { leaf i { type string; must "../../output/o"; } } } }`, nil},
+		// a statement stated twice where it may stand once, the first time with an empty argument
+		{"second-default-after-empty-default/leaf", hdr + `leaf a { type string; default ""; default "x"; } }`, nil},
+		{"second-default-after-empty-default/leaf-single-quoted", hdr + `leaf a { type string; default ''; default "x"; } }`, nil},
+		{"second-default-after-empty-default/typedef", hdr + `typedef t { type string; default ""; default "x"; } leaf a { type t; } }`, nil},
+		{"second-default-after-empty-default/choice", hdr + `choice ch { default ""; default "a"; leaf a { type string; } } }`, nil},
+		{"second-default/refine", hdr + `grouping g { leaf a { type string; } } uses g { refine a { default ""; default "y"; } } }`, nil},
+		{"second-default/deviate-add", hdr + `leaf a { type string; } deviation "/a" { deviate add { default "p"; default "q"; } } }`, nil},
+		{"second-default/deviate-add-after-empty", hdr + `leaf a { type string; } deviation "/a" { deviate add { default ""; default "q"; } } }`, nil},
+		{"second-default/deviate-replace", hdr + `leaf a { type string; default "d"; } deviation "/a" { deviate replace { default "p"; default "q"; } } }`, nil},
+		{"second-units", hdr + `leaf a { type string; units ""; units "x"; } }`, nil},
+		{"second-description-empty-first", hdr + `leaf a { type string; description ""; description "x"; } }`, nil},
+		{"second-presence-empty-first", hdr + `container c { presence ""; presence "x"; } }`, nil},
+		{"second-key", hdr + `list l { key k; key k; leaf k { type string; } } }`, nil},
+		{"second-type", hdr + `leaf a { type string; type int32; } }`, nil},
+		// substatements in bodies that do not take them
+		{"modifier-in-range", hdr + `leaf a { type int32 { range "1..2" { modifier invert-match; } } } }`, nil},
+		{"modifier-in-length", hdr + `leaf a { type string { length "1..2" { modifier invert-match; } } } }`, nil},
+		{"modifier-in-leaf", hdr + `leaf a { type string; modifier invert-match; } }`, nil},
+		{"error-message-in-leaf", hdr + `leaf a { type string; error-message "m"; } }`, nil},
+		{"fraction-digits-in-string", hdr + `leaf a { type string { fraction-digits 2; } } }`, nil},
+		{"path-in-string", hdr + `leaf a { type string { path "../b"; } } }`, nil},
+		{"enum-in-string", hdr + `leaf a { type string { enum x; } } }`, nil},
+		{"bit-in-enumeration", hdr + `leaf a { type enumeration { bit x; } } }`, nil},
+		{"base-in-string", hdr + `leaf a { type string { base nope; } } }`, nil},
+		// a module that says belongs-to
+		{"module-with-belongs-to/unknown-type", `module main { namespace "urn:main"; prefix m; belongs-to other { prefix o; } revision 0; leaf x { type nope; } }`, nil},
+		{"module-with-belongs-to/unknown-grouping", `module main { namespace "urn:main"; prefix m; belongs-to other { prefix o; } revision 0; uses nope; }`, nil},
+		{"module-with-belongs-to/own-prefix-type", `module main { namespace "urn:main"; prefix m; belongs-to other { prefix o; } revision 0; leaf x { type o:t; } }`, nil},
+		{"module-with-belongs-to/plain", `module main { namespace "urn:main"; prefix m; belongs-to other { prefix o; } revision 0; leaf x { type string; } }`, nil},
 		{"two-modules-in-one-text", `module a { namespace "urn:a"; prefix a; revision 0; } module b { namespace "urn:b"; prefix b; revision 0; }`, nil},
 	} {
 		out = append(out, extra)
